@@ -21,6 +21,8 @@ type ScopeRec struct {
 	UserCtx              context.Context
 	Cancel               context.CancelFunc
 	CtxKey               any
+	CommonVal            string // value under the key every value-carrying context of the run uses (CtxCommonKey)
+	Cause                error  // what the context handed to CreateScope is cancelled with (kinds 3 and 7)
 	CtxVal               any
 	CreateBeg, CreateEnd int64
 	Created              bool  // CreateScope succeeded
@@ -162,6 +164,10 @@ func (r *Runner) BuildWithContext(ctx context.Context) *Obs {
 
 type ctxKeyT struct{ n int }
 
+// CtxCommonKey is a key that every value-carrying context handed to CreateScope
+// uses (a request id): each scope sees the value of the context it was given.
+type CtxCommonKey struct{}
+
 // SkipTag consumes a scope tag without creating a scope (keeps numbering
 // aligned when a scripted create is skipped).
 func (r *Runner) SkipTag() { r.mu.Lock(); r.next++; r.mu.Unlock() }
@@ -186,7 +192,11 @@ func (r *Runner) CreateScope(parent int, ctxKind int) (*ScopeRec, *Obs) {
 		ctx, rec.Cancel = context.WithCancel(context.Background())
 	case 3:
 		rec.CtxKey, rec.CtxVal = ctxKeyT{tag}, fmt.Sprintf("val-%d", tag)
-		ctx, rec.Cancel = context.WithCancel(context.WithValue(context.Background(), rec.CtxKey, rec.CtxVal))
+		rec.CommonVal, rec.Cause = fmt.Sprintf("common-%d", tag), fmt.Errorf("request %d withdrawn", tag)
+		base := context.WithValue(context.WithValue(context.Background(), rec.CtxKey, rec.CtxVal), CtxCommonKey{}, rec.CommonVal)
+		c, cancel := context.WithCancelCause(base)
+		cause := rec.Cause
+		ctx, rec.Cancel = c, func() { cancel(cause) }
 	case 5:
 		// a context with a (far away) deadline
 		ctx, rec.Cancel = context.WithDeadline(context.Background(), time.Now().Add(time.Hour))
@@ -211,7 +221,10 @@ func (r *Runner) CreateScope(parent int, ctxKind int) (*ScopeRec, *Obs) {
 		}
 		r.mu.Unlock()
 		rec.CtxKey, rec.CtxVal = ctxKeyT{tag}, fmt.Sprintf("val-%d", tag)
-		ctx, rec.Cancel = context.WithCancel(context.WithValue(base, rec.CtxKey, rec.CtxVal))
+		rec.CommonVal, rec.Cause = fmt.Sprintf("common-%d", tag), fmt.Errorf("request %d withdrawn", tag)
+		c, cancel := context.WithCancelCause(context.WithValue(context.WithValue(base, rec.CtxKey, rec.CtxVal), CtxCommonKey{}, rec.CommonVal))
+		cause := rec.Cause
+		ctx, rec.Cancel = c, func() { cancel(cause) }
 	}
 	if ctxKind >= 10 { // gate context: Done() is a pre-emption point
 		base, cancel := context.WithCancel(context.Background())
